@@ -54,7 +54,7 @@ func init() {
 		Title: "The JSON output is well-formed and faithful to the data",
 		Rule: "documents: FA1 (one record x value menus), the full formatting product FB, every single-edit document FD1 (valid and invalid), and ALL strings of 1..3 (quick) / 1..4 (thorough) symbols over " +
 			"{\", \\, 0x01, 0x1F, 0x7F, <, >, &, é, 中, U+2028, 0xFF, #a, space, the six characters \\u0041, a truncated UTF-8 sequence} placed in record summary, entry summary, continuation line and tag value; " +
-			"each x {plain, --pretty, --sort asc, --sort desc, --date D, --tag a}. non-trivial = klog produced output; distinct by text hash.",
+			"each x {plain, --pretty, --sort asc, --sort desc, --date D, --tag a (documents containing #a)}. non-trivial = klog produced output; distinct by text hash.",
 		Assumptions: []string{
 			"specmodel.ParseJSON: strict RFC 8259 parser (valid UTF-8, defined escapes only, no raw control characters, no duplicate keys, nothing after the value)",
 			"record content expected from specmodel.Parse; for don't-care texts (e.g. invalid UTF-8) from klog's own parsed records read through the public accessors; invalid bytes may only be coerced to U+FFFD",
@@ -429,6 +429,13 @@ func c20Text(c *fw.Ctx, fam string, idx int, text string, viaCLI bool) {
 			}
 		}
 		vs = append(vs, variant{"--date " + d.ToString(), &cli.Json{FilterArgs: cliutil.FilterArgs{Date: d}, InputFilesArgs: in}, []string{"--date", d.ToString()}, w, false})
+	}
+	if ref.Verdict == sm.Valid && len(ref.Records) == len(rs) && strings.Contains(text, "#a") {
+		// a tag filter: the selection is C13's subject, here the selected records must be rendered faithfully
+		if kt, err := klog.NewTagFromString("a"); err == nil {
+			sel := c13Apply(ref.Records, []c13Clause{{kind: "tag", recTags: []sm.Tag{{Name: "a"}}}})
+			vs = append(vs, variant{"--tag a", &cli.Json{FilterArgs: cliutil.FilterArgs{Tags: []klog.Tag{kt}}, InputFilesArgs: in}, []string{"--tag", "a"}, expectFromRef(sel), false})
+		}
 	}
 	for _, v := range vs {
 		r := clidrv.Exec(home, clidrv.Opts{Now: fixedNow}, v.cmd)
